@@ -54,8 +54,8 @@ plan("C07", "other",
      "bounded only.")
 plan("C08", "other",
      "constant_key partition = CPython's constant-table partition with NaNs identified over all pairs of binary64 / complex / int values and across constructors (E1), Constant.__eq__ iff same "
-     "override and same key, __hash__ hashes exactly the pair __eq__ compares and never a NaN (E1), all data classes frozen with immutable field types (E1 static); equal data => identical code "
-     "and route pairs against ctypes _PyCode_ConstantKey are bounded (E3).",
+     "override and same key, __hash__ hashes exactly the pair __eq__ compares and never a NaN (E1), all data classes frozen with immutable field types, every field the encoder reads "
+     "participates in == and hash (E1 static; with determinism of to_code this is 'equal data => identical code'); the composition and route pairs against ctypes _PyCode_ConstantKey are bounded (E3).",
      assumptions=["builtin hash() respects == on tuples/str/bool/None/type objects/ints/non-NaN floats"])
 plan("C09", "proof",
      "ToArgs.found_index on unbounded abstract tables: the recorded order is the first-use rank, an override is reported only if position != rank or an equal entry was found first at another index, "
@@ -77,11 +77,13 @@ plan("C11", "proof",
 plan("C12", "proof",
      "Static frame pass: every store site (subscript/attribute store, del, in-place operator, mutator call, call of a callee that modifies an argument) in the closure of from_code, to_code, "
      "normalize, to_json_data, from_json_data writes to an object allocated in the same call or to a parameter its contract lists; no caching decorator, global statement or store to module "
-     "state (repeatability = determinism + empty frame).  Deep snapshots over repeated and interleaved calls are the bounded stand-in and the replay vehicle (E3).",
+     "state, and every call into another module is on the list of assumed-pure callees - none changes an interpreter-wide setting (repeatability = determinism + empty frame).  "
+     "Deep snapshots of arguments, results and interpreter-wide settings over repeated and interleaved calls are the bounded stand-in and the replay vehicle (E3).",
      assumptions=["the abstract interpretation's allocation/alias rules and the immutability of annotated scalar fields (mypy-clean library)"])
 plan("C13", "other",
      "Block-building loop of bytes_to_blocks as an extracted fragment cut at its head over a symbolic-length instruction sequence: a block opens exactly at target offsets, no block is empty, the "
-     "count equals the number of target offsets, no UnboundLocalError/ValueError path is feasible (E1); targets_set = {0} + every decoded jump target (E1 syntactic + to_arg contract); the step "
+     "count equals the number of target offsets, no UnboundLocalError/ValueError path is feasible (E1); targets_set = {0} + every decoded jump target (E1 syntactic + to_arg and _parse_bytes "
+     "contracts); an instruction is recorded at its first code unit, also when it has EXTENDED_ARG prefixes and is jumped to (E2 jump graphs on the real function); the step "
      "'every target is an instruction start' rests on WF and is checked against the target set computed from dis on corpora (E3).",
      assumptions=[WF])
 plan("C14", "other",
@@ -95,7 +97,8 @@ plan("C15", "other",
      e3_versions=[])
 plan("C16", "other",
      "main verified modularly by a complete finite case split: 3^4 source-option shapes x 2^5 flag sets with stubbed externals carrying contracts and a ghost output log (E1, no solver needed): "
-     "usage error iff not exactly one source is given, printed object = normalize(from_code(code)) or un-normalized, JSON = to_json_data of the same object, --dis-after disassembles its "
-     "to_code(); real subprocess runs on each interpreter with stdout parsed back (E3).",
+     "usage error (status 2) iff not exactly one source is given - argparse's exit/print_help/error and sys.argv are part of the stubbed contract -, the decoded code is the code of the "
+     "program that was named (for -m: of that module, in a universe where every name is a package with a __main__), printed object = normalize(from_code(code)) or un-normalized, JSON = "
+     "to_json_data of the same object, --dis-after disassembles its to_code(); real subprocess runs on each interpreter with stdout compared with the API's result (E3).",
      e3_jobs=1)
 PLAN["C15"]["e3"] = False     # the orchestration in pcv/custom.py runs producers and consumers itself
